@@ -546,6 +546,7 @@ def check_misc():
 # ---- plan / shards --------------------------------------------------------------------------------------
 
 def plan(tier):
+    build_slice().compile()      # compile once in the parent (cache); a slice that no longer compiles => exit 2
     quick = tier == 'quick'
     specs = []
     if quick:
@@ -563,7 +564,7 @@ def plan(tier):
     for _ in range(3 if quick else 10):
         specs.append(dict(kind='hyp_table', cap=400, n=300 if quick else 5000))
     for _ in range(2 if quick else 6):
-        specs.append(dict(kind='hyp_table', cap=3000, n=10 if quick else 250, budget_s=40 if quick else 1500))
+        specs.append(dict(kind='hyp_table', cap=3000, n=8 if quick else 250, budget_s=30 if quick else 1500))
     for _ in range(2 if quick else 4):
         specs.append(dict(kind='hyp_hwe', n=1200 if quick else 20000))
     return specs
